@@ -1,5 +1,7 @@
 package render
 
+import v2 "github.com/deadsy/sdfx/vec/v2"
+
 // C20: canonical form and order-independent equality of triangle sets;
 // in-circle predicate of the Delaunay triangulation.
 
@@ -107,4 +109,43 @@ func vc_C20_equals_distinct() {
 	s := TriangleISet{a, c}
 	vfReach("distinct")
 	vfAssert(!ts.Equals(s), "TriangleISet.Equals is false when one triangle differs (n=2)")
+}
+
+// The super triangle of Delaunay2d strictly contains every input point (the
+// Bowyer-Watson insertion relies on it: a point on or outside it loses hull
+// triangles). n = 2..4 arbitrary points, coordinates in [-1e6, 1e6], extent > 0.
+func vc_C20_supertriangle_contains() {
+	n := 2 + vfCase("n", 3)
+	var vs v2.VecSet
+	for i := 0; i < n; i++ {
+		x, y := vfRealN("p.x", i), vfRealN("p.y", i)
+		vfAssume(vfAnd(x >= -1e6, x <= 1e6))
+		vfAssume(vfAnd(y >= -1e6, y <= 1e6))
+		vs = append(vs, v2.Vec{X: x, Y: y})
+	}
+	// distinct points: some extent
+	ext := vs.Max().Sub(vs.Min())
+	vfAssume(vfOr(ext.X > 0, ext.Y > 0))
+	t, err := superTriangle(vs)
+	vfReach("super triangle")
+	vfAssert(err == nil, "superTriangle succeeds for a non-empty point set")
+	// When the returned triangle is (provably, for every input) an upright isosceles one with
+	// height = base - the shape the current code builds - containment is a linear question;
+	// for any other shape the general orientation test (quadratic) is used.
+	by, w := t[0].Y, (t[2].X-t[0].X)/2
+	if vfProved(vfAnd(vfAnd(t[0].Y == t[2].Y, 2*t[1].X == t[0].X+t[2].X), vfAnd(w > 0, t[1].Y-by == 2*w)), "super triangle is upright isosceles with height = base") {
+		for i := 0; i < n; i++ {
+			p := vs[i]
+			vfAssert(vfAnd(p.Y > by, vfAnd((p.Y-by)+2*(p.X-t[1].X) < 2*w, (p.Y-by)-2*(p.X-t[1].X) < 2*w)), "every input point lies strictly inside the super triangle")
+		}
+		return
+	}
+	orient := func(a, b, c v2.Vec) float64 { return (b.X-a.X)*(c.Y-a.Y) - (b.Y-a.Y)*(c.X-a.X) }
+	o := orient(t[0], t[1], t[2])
+	vfAssert(o != 0, "super triangle is not degenerate")
+	for i := 0; i < n; i++ {
+		p := vs[i]
+		o0, o1, o2 := orient(t[0], t[1], p), orient(t[1], t[2], p), orient(t[2], t[0], p)
+		vfAssert(vfOr(vfAnd(vfAnd(o > 0, o0 > 0), vfAnd(o1 > 0, o2 > 0)), vfAnd(vfAnd(o < 0, o0 < 0), vfAnd(o1 < 0, o2 < 0))), "every input point lies strictly inside the super triangle")
+	}
 }
